@@ -144,6 +144,9 @@ async fn main() -> Result<()> {
     if let Some(count) = min_idle_sessions {
         pool_config.min_idle_sessions = count;
     }
+    pool_config
+        .validate()
+        .context("Invalid idle session settings (-I / -T)")?;
 
     info!("{APP_NAME} v{VERSION}");
     info!("TLS SNI host: {}", effective_sni);
